@@ -96,6 +96,43 @@ def oracle(g, m, st, he, text, cfg, case, acc):
         acc.nontrivial += 1
 
 
+def provenance_shard(pool, k, version, indices):
+    """issues of an incrementally re-parsed module (diff_cache history T -> T') equal those of a fresh parse of
+    T', for every ordered pair over the C04 line-pool text set"""
+    parso = env.setup()
+    from parso import cache as cache_mod
+    from .c04 import pool_texts, PATH
+    g = parso.load_grammar(version=version)
+    texts = pool_texts(pool, k)
+    acc = sigma.make_acc(__import__('vp.props.c20', fromlist=['x']))
+
+    def issues(m):
+        try:
+            return [issue_tuple(i) for i in g._get_normalizer_issues(m)]
+        except Exception as e:
+            return ('exception',) + core.exc_sig(e)
+    fresh = [issues(g.parse(t)) for t in texts]
+    for i in indices:
+        for j, t1 in enumerate(texts):
+            acc.evaluations += 1
+            cache_mod.parser_cache.clear()
+            case = {'history': [texts[i], t1], 'version': version}
+            try:
+                g.parse(texts[i], diff_cache=True, path=PATH)
+                m1 = g.parse(t1, diff_cache=True, path=PATH)
+            except Exception as e:
+                continue       # a failing re-parse is C04's business
+            got = issues(m1)
+            if got and not isinstance(got, tuple):
+                acc.nontrivial += 1
+            if got != fresh[j]:
+                acc.fail(('issues-differ-for-incremental-tree',), case, 'incremental %r\nfresh %r' % (got, fresh[j]))
+    cache_mod.parser_cache.clear()
+    if 0 in indices:
+        acc.samples.append({'family': 'provenance', 'history': [texts[1], texts[-1]]})
+    return acc.strip()
+
+
 def rule_ff_in_comment(case, sig, extra, match):
     if not extra:
         return False
@@ -106,6 +143,23 @@ RULES = {'c20_ff_in_comment': rule_ff_in_comment}
 
 
 def recheck(case):
+    if 'history' in case:
+        parso = env.setup()
+        from parso import cache as cache_mod
+        from .c04 import PATH
+        g = parso.load_grammar(version=case['version'])
+
+        def issues(m):
+            try:
+                return [issue_tuple(i) for i in g._get_normalizer_issues(m)]
+            except Exception as e:
+                return ('exception',) + core.exc_sig(e)
+        cache_mod.parser_cache.clear()
+        m = None
+        for t in case['history']:
+            m = g.parse(t, diff_cache=True, path=PATH)
+        cache_mod.parser_cache.clear()
+        return {('issues-differ-for-incremental-tree',)} if issues(m) != issues(g.parse(case['history'][-1])) else set()
     return sigma.recheck_text(MOD, case)
 
 
@@ -136,5 +190,15 @@ def run(tier, seed):
     R.assumptions = ['texts limited to the listed alphabets/lengths/line pools',
                      'W292 exactness is only required on error-free trees of non-empty texts']
     sigma.sweep(R, MOD, families(tier, seed))
+    from .c04 import pool_texts, POOLS
+    for pool in (('A', 'D') if tier == 'quick' else tuple(POOLS)):
+        k = 2
+        n = len(pool_texts(pool, k))
+        idx = list(range(n))
+        acc = core.Acc()
+        for v in (('3.8',) if tier == 'quick' else ('3.6', '3.8', '3.14')):
+            for a in core.pmap(MOD, 'provenance_shard', [(pool, k, v, idx[i::32]) for i in range(32)]):
+                acc.merge(a)
+        R.section('provenance: incremental re-parse, pool %s k<=%d' % (pool, k), acc, texts=n)
     engb.run_plan(R, MOD, tier, seed, quick=(('3.8', 4),), thorough=(('3.8', 6), ('3.14', 5), ('3.6', 5)))
     return R.finish(recheck)
